@@ -257,6 +257,35 @@ func c16Flush(c *Ctx) {
 			// a successful add is followed by arming (when configured): from add's nil-error edge, under Frequency>0 and timer==nil the arm is reached
 		}
 	}
+	// wherever the pending buffer is replaced by a fresh one (rollOver, or the same statements written out
+	// elsewhere) the flush timer state is reset in the same function, on every path through the replacement:
+	// a drained timer that stays non-nil is never re-armed and a lone message is never flushed
+	nRepl := 0
+	fresh := StoreTo(p.ResultOf(0, "newProduceSet"), "brokerProducer.buffer")
+	for _, f := range p.Fns {
+		if f.Pkg != p.Sarama || p.Name(f) == "asyncProducer.newBrokerProducer" {
+			continue
+		}
+		reg := WholeFn(f)
+		for _, s := range Info(f).Find(fresh) {
+			if _, isAlloc := fieldChain(s.In.(*ssa.Store).Addr)[0].base.(*ssa.Alloc); isAlloc {
+				continue // constructor literal
+			}
+			nRepl++
+			for _, t := range []struct {
+				name string
+				ev   Ev
+			}{{"timer=nil", StoreTo(IsNil(), "brokerProducer.timer")}, {"timerFired=false", StoreTo(ConstBool(false), "brokerProducer.timerFired")}} {
+				before, _ := reg.Reach(IsItem(s), t.ev)
+				after, path := reg.From(s.After()).Escape(t.ev)
+				c.Check(before.IsZero() || !after, rule, f, "buffer-replacement-resets:"+t.name, s.Instr(), "the replacement of bp.buffer is accompanied by "+t.name+" on every path",
+					"bp.buffer is replaced by a fresh set without "+t.name+": the timer of the buffer that was handed over stays in place (a fired timer is drained and never re-armed, so a lone message in the new buffer waits for further input; a stale timerFired flushes every message singly)", path)
+			}
+		}
+	}
+	if nRepl == 0 {
+		c.Unresolved(rule, "replacement of bp.buffer by newProduceSet(…)")
+	}
 	if fn := c.NeedFn(rule, "brokerProducer.rollOver"); fn != nil {
 		reg := WholeFn(fn)
 		e1, _ := reg.Escape(StoreTo(IsNil(), "brokerProducer.timer"))
